@@ -1,7 +1,7 @@
 ENGINES = [
     {"name": "crashmc", "path": "mc/crashmc.py", "serves_properties": ["C07"],
      "kind_free_text": "crash-point enumeration over the syscall log (strace) of the real writer: all byte prefixes of the write sequence, recovery and restart executed on the real library"},
-    {"name": "gridmc", "path": "mc/checks", "serves_properties": ["C02", "C03", "C10", "C11", "C12", "C18", "C20"],
+    {"name": "gridmc", "path": "mc/checks", "serves_properties": ["C01", "C02", "C03", "C10", "C11", "C12", "C18", "C20"],
      "kind_free_text": "exhaustive enumeration of finite option lattices / member lists crossed with small branch-covering data alphabets, each point compared with an oracle independent of REBOUND"},
     {"name": "histmc", "path": "mc/histmc.py", "serves_properties": ["C05", "C06", "C08", "C09", "C13", "C14", "C15", "C17"],
      "kind_free_text": "explicit-state breadth-first exploration of operation histories on the real library object (state = history, canonical digest de-duplication, reference-model oracle on every transition)"},
@@ -10,6 +10,15 @@ NOTES = ("All checks explore the real implementation rebuilt from /repo's workin
          "so traces_validated_against_impl equals the number of executed transitions. known_findings.json lists repaired defects (fixed:) and recorded ones.")
 NOT_APPLICABLE = {}
 CHECKS = {
+    "C01": {
+        "engine": "gridmc", "category": "exploration",
+        "technique": "exhaustive enumeration of the documented integrator option lattice x test-particle setting x direction x system x three step sizes, each run compared with an independent longdouble Gragg-Bulirsch-Stoer reference; order and accuracy-class oracles, differential relations, user ODEs",
+        "text": "All 374 documented integrator settings (WHFast 4 kernels x 6 correctors x corrector2 x Jacobi, barycentric x 6 correctors, DH, WHDS, each x safe/unsafe/keep_unsynchronized; 18 SABA types x 3 safety modes; 9x9 EOS splittings + 27 unsafe ones; IAS15 4 adaptive modes x epsilon; LEAPFROG; JANUS 5 orders x 2 grids; BS 2 tolerances; MERCURIUS 4 switching functions x r_crit x safe mode; TRACE 3 peri modes x 2 switching conditions) "
+                "x {all active, massless test particle (type 0), massive test particle of type 1} x {forward, backward} (quick: 4 of the 6 combinations on system S3; thorough: all 6 on S3, S3t, S4G) x h = P/20, P/40, P/80 over two inner periods. "
+                "Oracles: error against the reference shrinks at the advertised classical order p (E(h)/E(h/4) >= 4^(p-1/2) or E(h/2)/E(h/4) >= 2^(p-1/2); pairs at the rounding floor unused), accuracy class for IAS15 (1e-11) and BS (3e3 x tolerance), end time, finiteness; relations: symplectic corrector >= 3 cuts the error below 0.3x, "
+                "kernel + high-order corrector below 0.5x the default kernel, forward/backward errors within 100x. User ODEs (harmonic oscillator, explicitly time-dependent right-hand side, quadrature coupled to a particle coordinate) advanced with BS, IAS15, WHFast, MERCURIUS against closed forms / the reference.",
+        "note": "Initial conditions are reduced to three well-separated systems; WHFast512 and SEI are not in this check (SEI's exact epicycle solution is covered under C03/C10 symmetric checks only).",
+    },
     "C10": {
         "engine": "gridmc", "category": "exploration",
         "technique": "exhaustive enumeration of the JANUS option lattice x grid-representable initial conditions x step counts x directions with a bit-for-bit oracle, and of the symmetric fixed-step schemes with a rounding-level oracle",
